@@ -28,36 +28,52 @@ LEAN_MODULES = ["DaskModel.Props.C17", "DaskModel.Props.C17b", "DaskModel.Props.
 TABLES = ["ConfigTables"]
 CASE_TIMEOUT_S = 10
 LEVEL_TEXT = (
-    "Lean 4 theorems over a transliteration of dask/config.py with insertion-ordered dictionaries: exit_restores "
-    "(every successful set(...) — any keys, duplicate/both spellings, paths descending into values set earlier in "
-    "the call — is undone exactly, key order included, and __exit__ never raises), set_failure_atomic + "
-    "set_rollback_never_raises (a raising set call leaves the configuration exactly unchanged; true only after the "
-    "fix: commit 61ccdd1 — the pre-fix code is kept as setInitNoRollback with the refutation "
-    "set_failure_not_atomic_without_rollback), nested_exit_restores / nested_never_stuck (induction over arbitrary "
-    "programs of nested and sequenced with-blocks, including raising inner calls unwinding outer blocks), "
-    "get_after_assign (any depth), get_either_spelling and get_either_spelling_path (any depth, every segment "
-    "independently respelled; hypotheses = exactly what the code needs: no mapping on the path already holds both "
-    "spellings, and altName is involutive on the segment — proved for every name that does not mix '-' and '_' "
-    "(altName_invol, respell_alt_of_pure); a witness shows mixed names like 'a_b-c' are not symmetric). "
-    "update_new_last_wins / merge_last_wins (priority 'new' and merge: the last scalar item wins, whatever came "
-    "before); update_old_keeps_old (priority 'old' with scalar new values never changes an existing entry); the "
-    "other precedence clauses ('new-defaults', nested merging) are validated by "
-    "oracle + function-level diff only.collect_env_single / collect_env_ignores_foreign: a DASK_ variable is "
-    "readable under its lower-cased dotted name, other variables are ignored. "
-    "update/merge/collect_env/check_deprecations are "
-    "modelled and diffed against the real functions on every run; serialize/deserialize and interpret_value are "
-    "validated by oracle only (not modelled: base64/json/ast.literal_eval).")
+    "PROVED for all inputs (Lean 4, over a transliteration of dask/config.py with insertion-ordered dictionaries): "
+    "exit_restores (every successful set(...) — any keys, duplicate/both spellings, paths descending into values set "
+    "earlier in the call — is undone exactly, key order included, and __exit__ never raises); set_failure_atomic + "
+    "set_rollback_never_raises (a raising set call leaves the configuration exactly unchanged; true only after fix: "
+    "61ccdd1 — the pre-fix code is kept as setInitNoRollback with the refutation "
+    "set_failure_not_atomic_without_rollback); nested_exit_restores / nested_never_stuck (induction over arbitrary "
+    "programs of nested and sequenced with-blocks, including raising inner calls unwinding outer blocks); "
+    "get_after_assign, get_either_spelling(_path) (any depth, every segment independently respelled; hypotheses = "
+    "exactly what the code needs: no mapping on the path already holds both spellings, altName involutive on the "
+    "segment — proved for every name that does not mix '-' and '_'; a witness shows 'a_b-c' is not symmetric). "
+    "Precedence: update_new_last_wins / merge_last_wins (last scalar item wins), update_new_nested_wins / "
+    "merge_last_nested_wins (priority 'new' and merge, ANY DEPTH: every scalar of new / of the last dictionary is what "
+    "get returns, for clean key sets), update_old_keeps_old (priority 'old', scalar new values, top level), "
+    "updateGo_frame (update writes only under the canonical names of new's keys), collect_env_single / "
+    "collect_env_ignores_foreign. Aliasing (Props/C17b over Model/ConfigAlias, where every mapping carries the "
+    "identity of its dict object): update_refines_value_model / merge_refines_value_model (identities forgotten, the "
+    "identity model IS the value model), update_keeps_or_creates / update_never_shares / merge_result_fresh (every "
+    "dict object of a result is an object of the target or new — never one of `new`), hstep_sound / hrun_sound "
+    "(any history of merge / update / set / update_defaults / refresh calls over separated named configurations: "
+    "in-place mutation seen through every reference = the value-level history; separation preserved; only the "
+    "target of a call changes — inputs_never_mutated), refresh_after_sets_restores (update_defaults, any sets, "
+    "refresh: the registered defaults come back with the values they had), share_shortcut_leaks (the same model "
+    "with `old[k] = v` leaks across calls — the theorems are about the code). "
+    "VALIDATED ONLY (differential correspondence + oracles on every run): nested 'old' / 'new-defaults' precedence "
+    "beyond the top level; collect_env with several overlapping variables; interpret_value, serialize/deserialize "
+    "(documented rule / round trip, oracle only: ast.literal_eval, json, base64 are not modelled); collect_yaml / "
+    "collect / refresh on real files (order, extension filter, malformed files, precedence vs the model's reverse "
+    "fold); expand_environment_variables; check_deprecations with random tables (modelled and diffed); get(default, "
+    "override_with), pop. The identity model is tied to the real object graph (id() of every dict before and after "
+    "each call) in sections `alias` and `hist`.")
 LEVEL_NOTE = ("Trusted: Lean kernel + standard axioms; the correspondence harness; CPython dict/str semantics "
-              "(insertion order, `in`, setdefault, pop) as mirrored by the association-list model; YAML loading, "
-              "the thread lock and `refresh`/`collect` file discovery are outside the model.")
-TECHNIQUE = ("Lean 4 proof (structural induction over key paths, record lists and with-block programs) + "
-             "extractor-regenerated deprecations table + differential correspondence with dask.config on fresh dicts")
+              "(insertion order, `in`, setdefault, pop, object identity) as mirrored by the association-list and "
+              "identity models; PyYAML; the thread lock around set is outside the model (single-threaded histories). "
+              "Model precondition for histories: a configuration that is itself registered in `defaults` is not the "
+              "target of refresh/update_defaults (self-update through the list), and update(old, new) is called with two different objects.")
+TECHNIQUE = ("Lean 4 proof (structural induction over key paths, record lists, with-block programs, nested mappings; "
+             "refinement identity-model -> value-model; separation invariant over histories) + extractor-regenerated "
+             "deprecations table + differential correspondence with dask.config on fresh dicts, object graphs and files")
 ASSUMPTIONS = [
-    "a configuration is a tree: no dict object is shared between two positions (the harness deep-copies every value)",
-    "every non-dict value behaves as an opaque scalar for set/get (int, None, str, list are all exercised by the tie)",
+    "every non-dict value behaves as an opaque scalar (int, None, str, list are exercised; a list stored in two "
+    "configurations IS shared by reference — lists are values for set/get/update, which never mutate them)",
     "keys are ASCII strings",
+    "named configurations start separated (no dict object reachable from two of them); proved to stay so (hrun_sound)",
 ]
-TRUSTED = ["ast.literal_eval / json / base64 (interpret_value, serialize, deserialize are checked by oracle only)"]
+TRUSTED = ["ast.literal_eval / json / base64 (interpret_value, serialize, deserialize are checked by oracle only)",
+           "PyYAML safe_load/safe_dump (files section)", "os.path.expandvars (expand section reference)"]
 
 
 def _alt(k):
@@ -1109,7 +1125,7 @@ def _exhaustive_histories():
 
 def generate(ctx):
     from props._stores_util import ensure_budget
-    ensure_budget(ctx, quick_scale=3.0)
+    ensure_budget(ctx, quick_scale=2.0)
     rng = ctx.rng
     # the defect of DESIGN.md section 6 #6 (repaired) and its neighbours, always
     yield "set", {"cfg": {"x": 1}, "items": [["q.r", 2, False], ["x.y", 3, False]]}
